@@ -32,6 +32,7 @@ type gcase struct {
 	Req     []int  `json:"req"`   // indices into the task list; -1 = an undefined name
 	Variant string `json:"variant"`
 	VarArg  int    `json:"var_arg"`
+	Undef   string `json:"undefined_name,omitempty"` // the undefined request name ("" = chosen from the graph)
 }
 
 func (g gcase) deps(i int) []int {
@@ -54,6 +55,7 @@ func (g gcase) key() string {
 //	dup-def    task VarArg is defined twice
 //	fail       the first command of task VarArg exits 3
 //	files      odd tasks depend on the file dep.txt (so repeated runs skip them)
+//	same-spelling every task dependency b is accompanied by the file dependency "b"
 //	dup-mention every task names each of its dependencies twice (a, b, b, a): same graph
 //	var-shadow a variable with the name of task VarArg is defined first (an identifier in a
 //	           dependency list still names the task)
@@ -66,6 +68,14 @@ func (g gcase) text(real bool, logPath string) string {
 		var deps []string
 		for _, j := range g.deps(i) {
 			deps = append(deps, c03Names[j])
+		}
+		if g.Variant == "same-spelling" {
+			// next to every task dependency b stands the file dependency "b" (a file of that name exists)
+			var both []string
+			for _, d := range deps {
+				both = append(both, "\""+d+"\"", d)
+			}
+			deps = both
 		}
 		if g.Variant == "dup-mention" {
 			for k := len(deps) - 1; k >= 0; k-- {
@@ -109,7 +119,12 @@ func (g gcase) request() []string {
 	var out []string
 	for _, r := range g.Req {
 		if r < 0 {
-			out = append(out, "zz")
+			// an undefined name; some spell what other tools take for a command
+			if g.Undef != "" {
+				out = append(out, g.Undef)
+				continue
+			}
+			out = append(out, []string{"zz", "clean", "help", "all", "init", "fmt", "version", "show", "vars", "default_"}[(g.N+int(g.Edges%7)+len(g.Req))%10])
 		} else {
 			out = append(out, c03Names[r])
 		}
@@ -319,6 +334,9 @@ func c03Worker(c *core.Ctx) {
 	root := c.TempDir("c03-")
 	defer os.RemoveAll(root)
 	_ = os.WriteFile(filepath.Join(root, "dep.txt"), []byte("x"), 0o644)
+	for _, n := range c03Names {
+		_ = os.WriteFile(filepath.Join(root, n), []byte("a file named like task "+n), 0o644)
+	}
 	reps := c.Q(8, 32)
 	for _, b := range plan {
 		if b.ID%c.NShards != c.Shard || b.ID < wl.Start {
@@ -383,7 +401,7 @@ func c03Worker(c *core.Ctx) {
 				c03Case(c, res, wl, root, b.ID, &idx, gc, reps)
 			}
 			// one variant of each kind with one seeded request
-			for _, variant := range []string{"undef-dep", "undef-req", "dup-def", "fail", "files", "var-shadow", "dup-mention"} {
+			for _, variant := range []string{"undef-dep", "undef-req", "dup-def", "fail", "files", "var-shadow", "dup-mention", "same-spelling"} {
 				if g.N >= 3 && !r.Chance(35) {
 					continue // keep the cost of the big enumerations bounded
 				}
@@ -595,16 +613,23 @@ func c03Binary(c *core.Ctx) *core.ShardResult {
 		for k := 0; k < m; k++ {
 			g.Req = append(g.Req, r.Intn(nn))
 		}
-		switch r.Intn(8) {
+		switch r.Intn(7) {
 		case 0:
 			g.Variant, g.VarArg = "undef-dep", r.Intn(nn)
 		case 1:
 			g.Variant = "undef-req"
-			g.Req = append(g.Req, -1)
+			g.Undef = core.Pick(r, []string{"clean", "clean", "help", "fmt", "init", "zz"})
+			if r.Bool() {
+				g.Req = append(g.Req, -1)
+			} else {
+				g.Req = append([]int{-1}, g.Req...)
+			}
 		case 2:
 			g.Variant, g.VarArg = "dup-def", r.Intn(nn)
 		case 3:
 			g.Variant = "dup-mention"
+		case 4:
+			g.Variant = "same-spelling"
 		}
 		cases = append(cases, g)
 	}
@@ -632,6 +657,9 @@ func c03BinaryCase(c *core.Ctx, g gcase, res *core.ShardResult) (vs []core.Viola
 	proj := filepath.Join(dir, "home", "proj")
 	logPath := filepath.Join(dir, "log")
 	_ = os.MkdirAll(proj, 0o755)
+	for _, n := range c03Names {
+		_ = os.WriteFile(filepath.Join(proj, n), []byte("a file named like task "+n), 0o644)
+	}
 	text := g.text(true, logPath)
 	_ = os.WriteFile(filepath.Join(proj, "spokfile"), []byte(text), 0o644)
 	inv := core.RunSpok(core.SpokOpts{Bin: c.SpokRace(), Dir: proj, Home: filepath.Join(dir, "home"), Args: append([]string{"--json"}, g.request()...)})
@@ -738,6 +766,9 @@ func c03Replay(c *core.Ctx, v core.Violation) []core.Violation {
 		root := c.TempDir("c03r-")
 		defer os.RemoveAll(root)
 		_ = os.WriteFile(filepath.Join(root, "dep.txt"), []byte("x"), 0o644)
+		for _, n := range c03Names {
+			_ = os.WriteFile(filepath.Join(root, n), []byte("a file named like task "+n), 0o644)
+		}
 		vs, _ = c03Judge(root, g, 64, res)
 	}
 	for i := range vs {
